@@ -731,3 +731,41 @@ def rule_no_pick_from_set(ctx, rep, rid: str, only=None) -> None:
         if only is None:
             raise AnalysisError(f"{rid}: no function holds a host set (anchor vanished)")
         rep.ok(rid, "no-host-sets", {"note": "the functions in scope keep no host set at all"})
+
+
+def rule_no_sequence_from_set(ctx, rep, rid: str, modules=("vm", "context", "values")) -> None:
+    """In the runtime (object model, natives, interpreter) a sequence made from a host set - list(S), tuple(S), a
+    comprehension over S, extend(S), join(S) - has the set's iteration order, which for strings changes with the
+    per-process hash seed.  Whatever is built from it (the keys a for-in loop visits, the elements of an array the
+    script receives) differs from run to run.  sorted(S) is the order-free way."""
+    rep.rule(rid, "in the runtime modules no sequence is made from a host set except through sorted(): list(S) / tuple(S) / [.. for x in S] / extend(S) / join(S) over a set expression does not occur", floor=1)
+    setfuncs = _set_functions(ctx)
+    n = 0
+    found = 0
+    for f in ctx.tree.funcs:
+        if isinstance(f.node, ast.Lambda) or f.module.name not in modules:
+            continue
+        n += 1
+        sn = _set_names(f, setfuncs)
+        for c in f.own_nodes():
+            inner = None
+            what = None
+            if isinstance(c, ast.Call) and norm(c.func) in ("list", "tuple") and c.args:
+                inner, what = c.args[0], f"{norm(c.func)}(..)"
+            elif isinstance(c, ast.Call) and isinstance(c.func, ast.Attribute) and c.func.attr in ("extend", "join") and c.args:
+                inner, what = c.args[0], f".{c.func.attr}(..)"
+            elif isinstance(c, (ast.ListComp, ast.GeneratorExp)) and c.generators:
+                inner, what = c.generators[0].iter, "a comprehension"
+                par = getattr(c, "_parent", None)
+                # (x in S for ..) consumed by any()/all()/sum()/len()/set(): order does not show
+                if isinstance(par, ast.Call) and norm(par.func) in ("any", "all", "sum", "len", "set", "frozenset", "sorted", "min", "max"):
+                    continue
+            if inner is None or not _is_set_expr(inner, sn, setfuncs):
+                continue
+            par = getattr(c, "_parent", None)
+            if isinstance(par, ast.Call) and norm(par.func) in ("sorted", "len", "set", "frozenset"):
+                continue
+            found += 1
+            rep.bad(rid, f"{f.qual}:{short(c, 40)}", f"{f.qual} makes a sequence from a host set with {what} (`{short(c, 50)}`): its order is the set's iteration order, which for strings depends on the per-process hash seed, so what the script sees built from it (the keys of for-in and Object.keys, the order of elements) changes from run to run", f"{f.module.rel}:{c.lineno}")
+    if found == 0:
+        rep.ok(rid, "runtime:no-sequence-from-set", {"functions": n})
